@@ -121,6 +121,11 @@ func (sa *merkleTree) Add(key int64, hash []byte, proof [][]byte) error {
 			ErrVerify, "too short proof (height=%d len=%d", key, len(proof),
 		)
 	}
+	if len(proof) > sa.level {
+		return errors.Wrapf(
+			ErrVerify, "too long proof (height=%d len=%d", key, len(proof),
+		)
+	}
 	br := sa.rootHash
 	omit := sa.level - len(proof)
 	proofBr := make([]*node, len(proof))
